@@ -23,6 +23,7 @@ package openapi3gen
 //@   preserves @C15 wlocked, rlocked, globals(openapi3gen)
 
 //@ func getTypeInfo
+//@   preserves @C18 generatorOpt.*, ExportComponentSchemasOptions.*
 //@   requires t != nil
 //@   requires !wlocked[ptr(typeInfosMutex)] && rlocked[ptr(typeInfosMutex)] == 0
 //@   modifies *
@@ -63,10 +64,10 @@ package openapi3gen
 //@ func (*Generator).generateWithoutSaving
 //@   assuming !wlocked[ptr(typeInfosMutex)] && rlocked[ptr(typeInfosMutex)] == 0 && t != nil
 //@   modifies *
-//@   loop 1 invariant plainScalar(g, entry(t)) ==> (t == entry(t) && !isNullable)
-//@   ensures @C18 [integer-kinds] plainScalar(g, t) && integerKind(kindOf(t)) ==> (result.1 == nil) == intSchema(result.0, kindOf(t))
-//@   ensures @C18 [float-kinds] plainScalar(g, t) && (kindOf(t) == reflect.Float32 || kindOf(t) == reflect.Float64) ==> (result.1 == nil) == floatSchema(result.0)
-//@   ensures @C18 [bool-kind] plainScalar(g, t) && kindOf(t) == reflect.Bool ==> (result.1 == nil) == boolSchema(result.0)
-//@   ensures @C18 [string-kind] plainScalar(g, t) && kindOf(t) == reflect.String ==> (result.1 == nil) == stringSchema(result.0)
+//@   loop 1 invariant old(plainScalar(g, entry(t))) ==> (t == entry(t) && !isNullable)
+//@   ensures @C18 [integer-kinds] old(plainScalar(g, t)) && integerKind(kindOf(t)) ==> (result.1 == nil) == intSchema(result.0, kindOf(t))
+//@   ensures @C18 [float-kinds] old(plainScalar(g, t)) && (kindOf(t) == reflect.Float32 || kindOf(t) == reflect.Float64) ==> (result.1 == nil) == floatSchema(result.0)
+//@   ensures @C18 [bool-kind] old(plainScalar(g, t)) && kindOf(t) == reflect.Bool ==> (result.1 == nil) == boolSchema(result.0)
+//@   ensures @C18 [string-kind] old(plainScalar(g, t)) && kindOf(t) == reflect.String ==> (result.1 == nil) == stringSchema(result.0)
 //@   option safety-tags none
 //@   tag C18-attempted
